@@ -242,6 +242,14 @@ func Yield(site string) {
 // anything, so at most one task executes library code at any time.
 func Woke(site string) { Yield(site) }
 
+// Settle calls f (a context.CancelFunc: it closes a channel inside the
+// standard library) and yields, so that every goroutine f woke has parked again
+// before the caller makes anything else ready (instrumenter rule 6).
+func Settle(f func(), site string) {
+	f()
+	Yield(site)
+}
+
 // Block marks that the task is about to really block; it is also a yield, so
 // the operation itself is a scheduling point.
 func Block(site string) {
@@ -251,6 +259,21 @@ func Block(site string) {
 	}
 	if t := s.cur(); t != nil {
 		s.park(t, site, nil)
+		s.mu.Lock()
+		t.Site = "blocked:" + site
+		s.mu.Unlock()
+	}
+}
+
+// MarkBlocked records that the task is about to really block in a
+// multi-clause select whose clauses were just polled (no yield: see the
+// instrumenter's select rule).
+func MarkBlocked(site string) {
+	s := Active
+	if s == nil {
+		return
+	}
+	if t := s.cur(); t != nil {
 		s.mu.Lock()
 		t.Site = "blocked:" + site
 		s.mu.Unlock()
